@@ -48,6 +48,25 @@ func checkC01(c *Check) {
 	c01R4(c, R)
 	c01R5(c, R)
 	c01R6(c)
+	// R7: the bypass predicate. The shared allow is justified by !mustTriggerCheck (R5); that predicate
+	// must be the documented disjunction over the rules (the decision-shape rule of C07), or a request can
+	// skip every filter.
+	c.Rule("C01.R7", "bypass predicate shape: the trigger decision that justifies the unfiltered allow returns `not triggered` only after every trigger rule has been consulted without a match, and `triggered` for no rules / an empty path / any matching rule (the rule C07.R3, filed here because a wrong `not triggered` is an OK without a live session).", 7)
+	if sr, missing := getServerRoles(c.P); len(missing) == 0 {
+		refile(c, "C01.R7", func() { c07R3(c, sr) })
+	} else {
+		for _, m := range missing {
+			c.Anchor("C01.R7", m, false)
+		}
+	}
+	// the refreshed token object is built in the refresh helper: an in-place merge into the object the store
+	// handed out would make unvalidated tokens visible to concurrent checks before validation
+	if R.Refresh != nil {
+		ok, why := refreshFieldsOK(R)
+		c.Obl(ok, "C01.R2", "refresh-result-is-a-new-object", c.P.Pos(R.Refresh.Pos()),
+			"the refresh helper returns an object it allocated, filled from the exchange answer and the stored tokens",
+			"the refresh helper does not return a freshly built token object ("+why+"): tokens that have not been validated can become visible in the session")
+	}
 }
 
 // c01R6: `live session` at the store level — the rules of C10 that make an expired session unavailable to
@@ -940,4 +959,15 @@ func allowReturnJustified(P *Program, R *Roles, fn *ssa.Function, fs FactSet) (b
 		return true, "shared allow for a matching chain without filters"
 	}
 	return false, "shared allow response returned without !mustTriggerCheck, without (matching chain ∧ no filters) and without AllowUnmatchedRequests"
+}
+
+// refile runs rule functions and files the obligations they produce under another rule id (a rule of one
+// property that is a necessary condition of another).
+func refile(c *Check, rule string, run func()) {
+	before := len(c.Obls)
+	run()
+	for _, o := range c.Obls[before:] {
+		o.Key = strings.Replace(o.Key, o.Rule, rule, 1)
+		o.Rule = rule
+	}
 }
